@@ -142,11 +142,19 @@ def job_evaluate_transposed(size, k, names, tag):
 
 # ---------------------------------------------------------------- key
 
-def job_key(dom_size):
+def job_key(dom_size, part=0, nparts=1):
+    """part / nparts: the reference key index is restricted to one of nparts contiguous blocks (the blocks together cover the
+    whole domain; splitting only spreads the enumeration over more workers)"""
     spec = T.by_name('key.weighted_score')
 
     def build(ctx):
         d = T.b_key(ctx, (dom_size, dom_size))
+        if nparts > 1:
+            i = d['ref'][0].i
+            n = len(d['ref'][0].dom)
+            lo, hi = (n * part) // nparts, (n * (part + 1)) // nparts
+            ctx.assume(i >= lo)
+            ctx.assume(i < hi)
         k = ctx.integer('k')
         ctx.assume(k >= 0)
         ctx.assume(k <= 11)
@@ -172,7 +180,7 @@ def job_key(dom_size):
         s2 = KEY.weighted_score(tr(r, k, flat), tr(e, k, not flat))
         A.observe('score', s1)
         A.require(A.eq(s1, s2), 'key.weighted_score:unchanged-by-transposition+respelling', keys=(r, e, k))
-    return Job('C09', 'key.weighted_score[%d keys x %d keys x 12 transpositions x 2 spellings]' % (dom_size, dom_size), build, body,
+    return Job('C09', 'key.weighted_score[%d keys x %d keys x 12 transpositions x 2 spellings%s]' % (dom_size, dom_size, '' if nparts == 1 else ', reference block %d/%d' % (part + 1, nparts)), build, body,
                funcs=['key.weighted_score', 'key.split_key_string', 'key.validate_key'], bounds=dict(keys=dom_size), timeout_s=3000, max_decisions=100000)
 
 
@@ -334,7 +342,11 @@ def jobs(tier):
         if names is ODD:
             names = [ODD[ODD_SEM.index(i)] if i in ODD_SEM else SHARP[i] for i in range(12)]
         js.append(job_evaluate_transposed(size, k, names, tag))
-    js.append(job_key(8 if q else len(T.KEY_STRINGS)))
+    if q:
+        js.append(job_key(8))
+    else:
+        for part in range(8):
+            js.append(job_key(len(T.KEY_STRINGS), part, 8))
     for n in ((1, 2) if q else (1, 2, 3)):
         js.append(job_melody_scale(n))
         js.append(job_melody_est_octave_and_sign(n))
